@@ -111,6 +111,12 @@ def _loader_case(cfg, M, kw, tmpl, box, lim, rng):
     elif drv == "group":
         res = loader.groupby("g").align(tmpl, max_shifts=ms, alignment_model=M, **kw)
         list(res)
+    elif drv == "no_template":
+        # template-free alignment (the loader's own average is the template): the same range applies
+        loader.align_no_template(max_shifts=ms, alignment_model=M, output_shape=box, **kw)
+    elif drv == "group_no_template":
+        res = loader.groupby("g").align_no_template(max_shifts=ms, alignment_model=M, output_shape=box, **kw)
+        list(res)
     else:
         res = loader.groupby("g").align_multi_templates([tmpl, tmpl[::-1].copy()], max_shifts=ms, alignment_model=M, **kw)
         list(res)
@@ -222,7 +228,7 @@ def run(rep: engine.Report, tier: str, seed: int):
         "TLC: every limit on the 1/100-px lattice in [0, 3.30] px (+5, 7.25, 12, 12.01, 19.99 px) x model x every integer arg-max "
         "cell x every refined mesh point / PCC window sample (InRange, NonEmpty, ZeroReachable, EdgeReachable); conformance: "
         f"{len(cases)} configurations enumerated by TLC (4 models x 5 data classes x 90 limit vectors x 4 boxes x rotation search x "
-        f"6 drivers), {len(sel)} run on the real code with the recorder on; {n_align} align returns and "
+        f"10 drivers incl. template-free alignment), {len(sel)} run on the real code with the recorder on; {n_align} align returns and "
         f"{sum(1 for e in events if e['kind'] == 'PostAlign')} write-backs judged by TLC"
         + ("" if quick else "; plus every align return / write-back of the repository's own test-suite")
     )
